@@ -12,7 +12,8 @@ THEOREMS = [
     "Rtr.C15.init_rejects", "Rtr.C15.add_rejects_dup", "Rtr.C15.last_group_kept", "Rtr.C15.sorted_inv",
     "Rtr.C15.sorted_inv_run", "Rtr.C15.established_only_if_synced", "Rtr.C15.established_closes_less_preferred",
     "Rtr.C15.never_closed_for_worse", "Rtr.C15.error_starts_best_closed", "Rtr.C15.closed_groups_have_no_thread",
-    "Rtr.C15.rereport_while_unsynced",
+    "Rtr.C15.rereport_while_unsynced", "Rtr.C15.failed_add_changes_nothing", "Rtr.C15.last_group_never_removed",
+    "Rtr.C15.len_bookkeeping",
 ]
 LINK = ["-Wl,--wrap=rtr_start", "-Wl,--wrap=rtr_stop", "-Wl,--wrap=lrtr_dbg"]
 
@@ -47,14 +48,14 @@ class Obs:
 
 def parse_obs(line):
     """'rc=0 log=... first=3 groups=3:CLOSED:10.0.0,10.0.0|5:...'  ->  Obs (None when the line has no observation)"""
-    m = re.match(r"^rc=(-?\d+) log=(\S+) first=(\d+) groups=(\S*)$", line)
+    m = re.match(r"^rc=(-?\d+) log=(\S+) first=(\d+|\?) groups=(\S*)$", line)
     if not m:
         return None
     o = Obs()
     o.raw = line
     o.rc = int(m.group(1))
     o.log = [] if m.group(2) == "-" else m.group(2).split(";")
-    o.first = int(m.group(3))
+    o.first = int(m.group(3)) if m.group(3) != "?" else None
     o.groups = []
     for gtxt in m.group(4).split("|"):
         if not gtxt:
@@ -94,6 +95,7 @@ def oracle(ops, out):
     returns list of (line index, clause, message)"""
     fails = []
     pre = None                                 # last observation of the live configuration
+    pristine = True                            # no setiv since init: every socket still has the intervals of rtr_mgr_init
     for k, (op, line) in enumerate(zip(ops, out)):
         w = op.split()
         if not w:
@@ -105,6 +107,7 @@ def oracle(ops, out):
             continue
         cur = parse_obs(line)
         if w[0] == "init":
+            pristine = True
             specs = []
             for t in w[1:]:
                 a, b = t.split(":")
@@ -146,13 +149,25 @@ def oracle(ops, out):
         if prefs and cur.first != prefs[0]:
             fails.append((k, "sorted_inv", "first group is %d, order is %s" % (cur.first, prefs)))
         # ---- add / remove
-        if w[0] == "add":
+        if w[0] == "setiv":
+            pristine = False
+            if cur.groups != pre.groups or cur.log or cur.rc != 0:
+                fails.append((k, "protocol", "setiv changed the observable configuration: " + line))
+        if w[0] in ("add", "addf"):
             p = int(w[1])
             if p in pre.prefs():
                 if cur.rc == 0 or cur.groups != pre.groups or cur.log:
                     fails.append((k, "add_rejects_dup", "adding preference %d (in use) gave rc=%d" % (p, cur.rc)))
+            elif cur.rc == 0:
+                if prefs != sorted(pre.prefs() + [p]):
+                    fails.append((k, "add_rejects_dup", "adding fresh preference %d gave rc=%d groups %s" % (p, cur.rc, prefs)))
             else:
-                if cur.rc != 0 or prefs != sorted(pre.prefs() + [p]):
+                # a refused add (intervals rejected by rtr_init, refused allocation) must not change or start anything
+                if cur.groups != pre.groups or cur.log:
+                    fails.append((k, "failed_add_changes_nothing", "add of fresh preference %d failed with rc=%d but groups %s -> %s, log %s" % (
+                        p, cur.rc, pre.prefs(), prefs, cur.log)))
+                if w[0] == "add" and pristine:
+                    # no interval of any socket was ever touched and no allocation refused: nothing can make it fail
                     fails.append((k, "add_rejects_dup", "adding fresh preference %d gave rc=%d groups %s" % (p, cur.rc, prefs)))
         if w[0] == "remove":
             p = int(w[1])
@@ -208,7 +223,7 @@ def oracle(ops, out):
                     fails.append((k, "never_closed_for_worse",
                                   "rtr_stop on socket %d.%d while handling an event of group %d (%s)" % (
                                       e[1], e[2], evp, "which became ESTABLISHED" if evp in became else "not newly ESTABLISHED")))
-        elif w[0] in ("add", "start"):
+        elif w[0] in ("add", "addf", "start", "setiv"):
             if stops:
                 fails.append((k, "never_closed_for_worse", "'%s' stopped sockets %s" % (op, stops)))
         elif w[0] == "remove":
@@ -298,6 +313,10 @@ def gen_case(r, hid):
                 if r.random() < 0.5:
                     c.ops.append("ev %d %d 3 1" % (p, j))
                 c.ops.append("ev %d %d 1 %d" % (p, j, 1 if r.random() < 0.92 else 0))
+        elif x < 0.015 + 0.12:
+            # End of Data in ACCEPT_ANY mode: intervals of the group's first socket, in range / out of range / 0
+            t = [r.choice([0, 1, 599, 600, 3600, 7200, 7201, 86400, 86401, 172800, 172801, 999999999]) for _ in range(3)]
+            c.ops.append("setiv %d %d %d %d" % (r.choice(ps + [r.choice(prefpool)]), t[0], t[1], t[2]))
         elif x < 0.72:
             p = r.choice(ps)
             j = r.randrange(groups[p]) if r.random() < 0.99 else groups[p]
@@ -322,6 +341,153 @@ def gen_case(r, hid):
     return c
 
 
+# allocation indexes of rtr_mgr_add_group that the generator refuses.  Index 2 (the list node) is supported by harness and
+# model (as fixed: RTR_ERROR, nothing changes) but the present code returns RTR_SUCCESS there without adding the group
+# (build/fixes/C15_add_group_node_alloc_rc.diff); it joins the generated classes when VERIF_MGR_ALLOC2=1 or once /repo is fixed.
+# Index 3 does not exist today: refusing it must be without effect (it detects an allocation that is added to the function).
+ALLOC_FAIL_INDEXES = (1, 2, 3)       # index 2 (the list node) since the fix cc85024 in /repo
+
+
+def interval_bounds():
+    """(refresh, expire, retry) ranges of rtr_init as spelled in the tree under test (rtrlib/rtr/rtr_private.h), plus the integer
+    literals of the sources as further candidates for announced values"""
+    vals = {}
+    try:
+        src = ""
+        for f in ("rtr_private.h", "rtr.h"):
+            fp = os.path.join(vlib.REPO, "rtrlib", "rtr", f)
+            if os.path.exists(fp):
+                src += open(fp, errors="replace").read()
+        for m in re.finditer(r"\b(RTR_(?:REFRESH|EXPIRATION|RETRY)_(?:MIN|MAX))\s*=\s*(\d+)", src):
+            vals[m.group(1)] = int(m.group(2))
+    except OSError:
+        pass
+    rng_ = [(vals.get("RTR_REFRESH_MIN", 1), vals.get("RTR_REFRESH_MAX", 86400)),
+            (vals.get("RTR_EXPIRATION_MIN", 600), vals.get("RTR_EXPIRATION_MAX", 172800)),
+            (vals.get("RTR_RETRY_MIN", 1), vals.get("RTR_RETRY_MAX", 7200))]
+    lits = [v for v in vlib.source_literals()["ints"] if 2 <= v <= 999999998]
+    return rng_, lits
+
+
+def gen_ivcase(r, hid, bounds, lits, kind):
+    """An add that fails AFTER the duplicate-preference check, then removals down to the last group and further:
+    kind 'iv'    - End of Data with out-of-range intervals (ACCEPT_ANY) on the group(s) rtr_mgr_add_group copies from,
+    kind 'alloc' - an allocation of rtr_mgr_add_group is refused,
+    kind 'inrange' - interval changes that stay inside the ranges / are 0 ("not set"): every add must still succeed."""
+    c = Case(hid)
+    LIM = 999999999
+
+    def inside(j):
+        lo, hi = bounds[j]
+        return r.choice([lo, hi, min(lo + 1, hi), max(hi - 1, lo), r.randint(lo, hi)])
+
+    def outside(j):
+        lo, hi = bounds[j]
+        cands = [hi + 1, min(hi * 2 + 7, LIM), LIM] + [v for v in (r.choice(lits), r.choice(lits)) if v > hi]
+        if lo > 1:
+            cands += [lo - 1, 1, max(1, lo // 2)]
+        return min(r.choice(cands), LIM)
+
+    def iv(bad):
+        x = [inside(0), inside(1), inside(2)]
+        if bad:
+            for j in r.sample([0, 1, 2], r.choice([1, 1, 2, 3])):
+                x[j] = outside(j)
+        else:
+            for j in range(3):
+                if r.random() < 0.2:
+                    x[j] = 0
+        return tuple(x)
+
+    def ok(t):
+        return all(bounds[j][0] <= t[j] <= bounds[j][1] for j in range(3))
+
+    def picked(ivs, order):
+        acc = [3600, 7200, 600]
+        for p in order:
+            for j in range(3):
+                if ivs[p][j]:
+                    acc[j] = ivs[p][j]
+        return tuple(acc)
+
+    n = r.choice([1, 1, 2, 2, 3])
+    ps = sorted(r.sample(range(1, 60), n))
+    nsock = {p: r.choice([1, 1, 2]) for p in ps}
+    ivs = {p: (3600, 7200, 600) for p in ps}
+    c.ops.append("init " + " ".join("%d:%d" % (p, nsock[p]) for p in ps))
+    if r.random() < 0.7:
+        c.ops.append("start")
+
+    def fresh():
+        while True:
+            p = r.randrange(0, 256)
+            if p not in ivs:
+                return p
+
+    def do_add(failk=0):
+        p, k = fresh(), r.choice([1, 1, 2])
+        c.ops.append(("addf %d %d %d" % (p, k, failk)) if failk else "add %d %d" % (p, k))
+        pk = picked(ivs, sorted(ivs))
+        if ok(pk) and failk not in (1, 2):
+            ivs[p] = pk
+            nsock[p] = k
+
+    for _ in range(r.choice([0, 1, 1, 2])):
+        do_add()
+    if r.random() < 0.4:
+        p = r.choice(sorted(ivs))
+        c.ops.append("ev %d 0 1 1" % p)
+    if kind == "alloc":
+        for _ in range(r.choice([1, 2, 3])):
+            do_add(r.choice(ALLOC_FAIL_INDEXES))
+    else:
+        order = sorted(ivs)
+        shape = r.choice(["last", "last", "all", "earlier"])
+        if shape == "last" or len(order) == 1:
+            targets = [(order[-1], iv(kind == "iv"))]
+        elif shape == "all":
+            targets = [(p, iv(kind == "iv")) for p in order]
+        else:
+            # the groups after q announce 0 ("not set") in the component that q announces out of range
+            q = r.choice(order[:-1])
+            t = iv(kind == "iv")
+            targets = [(q, t)] + [(p, tuple(0 if not (bounds[j][0] <= t[j] <= bounds[j][1]) or r.random() < 0.3 else inside(j)
+                                           for j in range(3))) for p in order if p > q]
+        for p, t in targets:
+            c.ops.append("setiv %d %d %d %d" % ((p,) + t))
+            ivs[p] = t
+        for _ in range(r.choice([1, 1, 2, 3])):
+            do_add()
+        if r.random() < 0.3:
+            c.ops.append("add %d 1" % r.choice(sorted(ivs)))          # duplicate in between
+    if r.random() < 0.3:
+        c.ops.append("ev %d 0 %d 1" % (r.choice(sorted(ivs)), r.choice([1, 7, 3])))
+    # removals down to the last group, and further
+    order = sorted(ivs)
+    r.shuffle(order)
+    for p in order[:-1]:
+        c.ops.append("remove %d" % p)
+        del ivs[p]
+    last = order[-1]
+    c.ops.append("remove %d" % last)
+    if r.random() < 0.5:
+        c.ops.append("remove %d" % last)
+    if r.random() < 0.3:
+        c.ops.append("remove %d" % fresh())
+    # repair the intervals, grow again, and try the old last group once more (now removable)
+    if r.random() < 0.6:
+        t = iv(False)
+        c.ops.append("setiv %d %d %d %d" % ((last,) + t))
+        ivs[last] = t
+        do_add()
+        c.ops.append("remove %d" % last)
+        if len(ivs) > 1:
+            del ivs[last]
+        c.ops.append("remove %d" % sorted(ivs)[0])
+    c.ops.append("free")
+    return c
+
+
 SCRIPTED = [
     # every rejection class of init, then a run through failover in both directions
     ["init", "init 4:0", "init 4:1 4:2", "init 9:1 4:0 9:2", "init 9:1 3:2 5:1", "start",
@@ -330,6 +496,10 @@ SCRIPTED = [
      "add 5 1", "add 1 2", "remove 3", "remove 9", "remove 5", "remove 1", "remove 1", "stop", "free"],
     # injected RTR_SHUTDOWN leaves a thread behind; the next failover cannot start that group
     ["init 3:1 5:1", "start", "ev 3 0 9 0", "add 1 1", "ev 1 0 7 0", "ev 5 0 7 0", "free"],
+    # End of Data (ACCEPT_ANY) makes the intervals of the least preferable group's first socket unusable: adds fail after
+    # the duplicate check (in every reading of the code); the last group must stay however often removal is tried
+    ["init 3:1 5:2", "start", "add 7 1", "setiv 7 200000 7200 600", "add 9 1", "add 7 1", "addf 9 1 1", "add 11 2",
+     "remove 5", "remove 3", "remove 7", "remove 7", "remove 9", "setiv 7 0 0 0", "add 9 1", "remove 7", "remove 9", "free"],
     # re-report of ESTABLISHED while a socket is in FAST_RECONNECT (observation, not a violation)
     ["init 3:1", "start", "ev 3 0 3 1", "ev 3 0 1 1", "ev 3 0 4 1", "ev 3 0 0 1", "free"],
 ]
@@ -424,6 +594,11 @@ def run(pid, tier):
     for k, ops in enumerate(SCRIPTED):
         cases.append(Case("scripted%d" % k, ops))
     ncases = {"quick": 3000, "thorough": 60000}[tier]
+    bounds, lits = interval_bounds()
+    niv = {"quick": 400, "thorough": 8000}[tier]
+    for h in range(niv):
+        kind = ("iv", "iv", "alloc", "inrange")[h % 4]
+        cases.append(gen_ivcase(r, "%s%d" % (kind, h), bounds, lits, kind))
     for h in range(ncases):
         cases.append(gen_case(r, "gen%d" % h))
 
@@ -433,7 +608,10 @@ def run(pid, tier):
              "failover_error_started_group": 0, "error_no_candidate": 0, "error_while_other_established": 0,
              "rtr_start_calls": 0, "rtr_start_failed": 0, "rtr_stop_calls": 0, "nested_shutdown_callbacks": 0,
              "status_callbacks": 0, "swallowed_events": 0, "groups_hist": {}, "sockets_hist": {}, "bad_op": 0,
-             "established_rereports": 0}
+             "established_rereports": 0, "add_failed_after_dup_check": {}, "add_refused_allocation": 0,
+             "setiv_out_of_range": 0, "setiv_in_range_or_unset": 0, "last_group_removal_refused": 0,
+             "last_group_removal_refused_after_failed_add": 0, "removed_down_to_one_after_failed_add": 0,
+             "interval_bounds": bounds}
     distinct = set()
     validated = [0]
     divergences = []
@@ -445,6 +623,7 @@ def run(pid, tier):
 
     def account(c, io):
         pre = None
+        failed_add = False
         for op, line in zip(c.ops, io):
             w = op.split()
             stats["ops"] += 1
@@ -459,10 +638,32 @@ def run(pid, tier):
             rc = m.group(1) if m else "?"
             if w[0] in ("init", "add", "remove", "start"):
                 bump(stats[w[0] + "_rc"], rc)
+            if w[0] == "addf":
+                bump(stats["add_rc"], rc)
             cur = parse_obs(line)
             if cur is None:
                 pre = None
                 continue
+            if w[0] == "init":
+                failed_add = False
+            if w[0] == "setiv":
+                t = [int(x) for x in w[2:5]]
+                if all(t[j] == 0 or bounds[j][0] <= t[j] <= bounds[j][1] for j in range(3)):
+                    stats["setiv_in_range_or_unset"] += 1
+                else:
+                    stats["setiv_out_of_range"] += 1
+            if pre is not None and w[0] in ("add", "addf") and int(w[1]) not in pre.prefs() and cur.rc != 0:
+                bump(stats["add_failed_after_dup_check"], "%s rc=%s" % ("intervals" if w[0] == "add" else "allocation %s" % w[3], rc))
+                if w[0] == "addf":
+                    stats["add_refused_allocation"] += 1
+                failed_add = True
+            if pre is not None and w[0] == "remove":
+                if len(pre.groups) == 1 and cur.rc != 0:
+                    stats["last_group_removal_refused"] += 1
+                    if failed_add:
+                        stats["last_group_removal_refused_after_failed_add"] += 1
+                if len(pre.groups) == 2 and len(cur.groups) == 1 and failed_add:
+                    stats["removed_down_to_one_after_failed_add"] += 1
             if w[0] == "init":
                 bump(stats["groups_hist"], str(len(cur.groups)))
                 for g in cur.groups:
@@ -555,7 +756,11 @@ def run(pid, tier):
         "rule": "configurations of 1..4 groups x 1..3 sockets (preference pools with collisions, rejected inits: empty / "
                 "socket-less / duplicate), histories of 8..60 operations: socket events over all 11 rtr_socket_state values "
                 "on random sockets (plus FSM-like SYNC/ESTABLISHED ramps of whole groups), add_group (fresh and duplicate "
-                "preferences), remove_group (present, absent, last), start, stop; after EVERY operation the reply carries "
+                "preferences; adds that fail after the duplicate check: out-of-range refresh/expire/retry intervals - range bounds read "
+                "from rtr_private.h of the tree, values at and beyond the bounds and from the integer literals of the sources, 0 = not set - "
+                "stored in sockets[0] of the last / all / an earlier group as End of Data does in ACCEPT_ANY mode, and refused "
+                "allocations of add_group; followed by removals down to the last group and beyond, repair and re-growth), "
+                "remove_group (present, absent, last), start, stop; after EVERY operation the reply carries "
                 "return code, the status-callback stream and rtr_start/rtr_stop call log of that operation, "
                 "rtr_mgr_get_first_group and the rtr_mgr_for_each_group enumeration with every socket's state / "
                 "last_update!=0 / thread_id!=0; distinct = distinct (event, statuses before relative to the event's group, "
@@ -568,7 +773,9 @@ def run(pid, tier):
     rep.assumptions = [
         "socket threads are parked in a mock tr_open; the events a real FSM thread would produce are a subset of the injected ones",
         "status callback and rtr_mgr_* API are used from one thread (no concurrent callbacks); rwlock not exercised",
-        "allocation never fails in these runs (see C18)",
+        "allocation fails only where the history says so (addf: k-th lrtr_malloc of that rtr_mgr_add_group call)",
+        "interval changes are injected by writing refresh/expire/retry of sockets[0] (what rtr_check_interval_option does in "
+        "RTR_INTERVAL_MODE_ACCEPT_ANY); the PDU path itself is C11/C12's subject",
         "group identity in the model is the preference value (distinct in every reachable configuration: sorted_inv)",
     ]
 
@@ -579,6 +786,12 @@ def run(pid, tier):
                 ("failover_error_started_group", stats["failover_error_started_group"]),
                 ("init rejected", stats["init_rc"].get("-1", 0)), ("add rejected", stats["add_rc"].get("-2", 0)),
                 ("remove rejected", stats["remove_rc"].get("-1", 0)),
+                ("add failed after the duplicate check (intervals rejected by rtr_init)",
+                 sum(v for k_, v in stats["add_failed_after_dup_check"].items() if k_.startswith("intervals"))),
+                ("add failed after the duplicate check (allocation refused)", stats["add_refused_allocation"]),
+                ("removal down to one group after a failed add", stats["removed_down_to_one_after_failed_add"]),
+                ("removal of the last group refused after a failed add", stats["last_group_removal_refused_after_failed_add"]),
+                ("setiv in range", stats["setiv_in_range_or_unset"]),
                 ("CONNECTING->ESTABLISHED", stats["status_transitions"].get("CONNECTING->ESTABLISHED", 0)),
                 ("ERROR->ESTABLISHED", stats["status_transitions"].get("ERROR->ESTABLISHED", 0)),
                 ("ESTABLISHED->CLOSED", stats["status_transitions"].get("ESTABLISHED->CLOSED", 0))]
@@ -592,13 +805,17 @@ def run(pid, tier):
     for k, (sig, lst) in enumerate(sorted(by_sig.items())[:3]):
         c, nout, rc1, err1 = lst[0]
         ops = minimise_crash(exe, c.ops)
+        clause, what, o1 = crash_clause(exe, ops)
+        m1, _, _ = vlib.run_lines(drv, ops)
         others = "".join("# same failure: history %s: %s\n" % (c2.hid, " | ".join(minimise_crash(exe, c2.ops)))
                          for c2, _, _, _ in lst[1:4])
         rep.violation("crash%d" % k,
                       "# property C15: implementation aborted (rc=%s) after %d replies of history %s\n# %s\n"
-                      "# clause: init_rejects -- rtr_mgr_init must return RTR_ERROR for this configuration; "
-                      "replay: feed the lines below to the harness built from harness/mgr_harness.c\n%s"
-                      "%s\n--- stderr ---\n%s\n" % (rc1, nout, c.hid, sig, others, "\n".join(ops), err1[-3000:]),
+                      "# clause: %s -- %s\n# replay: feed the lines below to the harness built from harness/mgr_harness.c\n%s"
+                      "%s\n--- implementation replies (the process died in the operation after the last one) ---\n%s\n"
+                      "--- model replies ---\n%s\n--- stderr ---\n%s\n" % (
+                          rc1, nout, c.hid, sig, clause, what, others, "\n".join(ops), "\n".join(o1), "\n".join(m1),
+                          err1[-3000:]),
                       signature=sig)
     seen_clauses = set()
     for c, (i, clause, msg) in oracle_fails:
@@ -623,6 +840,27 @@ def run(pid, tier):
         rep.build_log = "classes not reached: %s\n%s" % (gate, stats)
         vlib.proof_failure(rep, "coverage gate of tools/mgrcheck.py")
     return rep.finish()
+
+
+def crash_clause(exe, ops):
+    """which clause of C15 the operation the process died in belongs to (from the implementation's own replies so far)"""
+    o, rc, err = vlib.run_lines(exe, ops)
+    k = len(o)
+    op = ops[k] if k < len(ops) else ""
+    w = op.split()
+    pre = None
+    for line in reversed(o):
+        pre = parse_obs(line)
+        if pre is not None:
+            break
+    if w and w[0] == "init":
+        return "init_rejects", "rtr_mgr_init must return an error code for this configuration (or succeed), not crash", o
+    if w and w[0] == "remove" and pre is not None and len(pre.groups) == 1:
+        return ("last_group_kept", "'%s' on a configuration with the single group %s must be refused with RTR_ERROR; the call was "
+                "not refused (the process died inside it: no group left for rtr_mgr_get_first_group)" % (op, pre.prefs()), o)
+    if w and w[0] in ("add", "addf"):
+        return "failed_add_changes_nothing", "the process died inside '%s'" % op, o
+    return "memory safety", "the process died inside '%s'" % op, o
 
 
 def minimise_crash(exe, ops):
